@@ -199,6 +199,7 @@ def run(ctx):
         "transitions": sum(r["generated"] for r in mc.values()) + genres["generated"] + jumpres["generated"],
         "jump_destination_sweep_cases": len(jprogs),
         "call_trees": tot["tree_programs"],
+        "runs_recorded_up_to_the_step_bound_only": tot["truncated_runs"],
         "traces_validated_against_impl": tot["programs"],
         "events_validated": total_events,
         "interpreter_steps_recorded": tot["steps"],
